@@ -6,7 +6,6 @@ import (
 	"math/big"
 	"os"
 	"path/filepath"
-	"sync"
 	"time"
 
 	"github.com/ethereum/go-ethereum/event"
@@ -45,34 +44,35 @@ type World struct {
 	Launch   uint64
 }
 
-var worldOnce sync.Once
-var theWorld *World
+var worlds = map[Config]*World{}
 
-// TheWorld fixes the process-wide configuration (thor.SetConfig is global; every chain of a run shares it).
+// TheWorld selects the configuration for the scenarios that follow (thor.SetConfig is process-global, so scenarios
+// of different configurations run one after the other; call it only while no node of another configuration is active).
 func TheWorld(cfg Config) *World {
-	worldOnce.Do(func() {
-		thor.SetConfig(thor.Config{EpochLength: cfg.L})
-		fc := thor.NoFork
-		fc.FINALITY = 0
-		w := &World{Cfg: cfg, Accounts: genesis.DevAccounts()[:cfg.N], FC: &fc}
-		bal, _ := new(big.Int).SetString("1000000000000000000000000000", 10)
-		var auth []genesis.Authority
-		var accounts []genesis.Account
-		for _, acc := range genesis.DevAccounts() {
-			accounts = append(accounts, genesis.Account{Address: acc.Address, Balance: (*genesis.HexOrDecimal256)(bal), Energy: (*genesis.HexOrDecimal256)(bal)})
-		}
-		for _, acc := range w.Accounts {
-			auth = append(auth, genesis.Authority{MasterAddress: acc.Address, EndorsorAddress: acc.Address, Identity: thor.BytesToBytes32([]byte("master"))})
-		}
-		mbp := uint64(cfg.N)
-		// launch far enough in the past that no generated block is a "future block" for time.Now()
-		w.Launch = uint64(time.Now().Unix()) - 20*3600
-		w.Launch -= w.Launch % 10
-		w.gene = &genesis.CustomGenesis{LaunchTime: w.Launch, GasLimit: thor.InitialGasLimit, ForkConfig: w.FC, Authority: auth,
-			Accounts: accounts, Params: genesis.Params{MaxBlockProposers: &mbp}}
-		theWorld = w
-	})
-	return theWorld
+	thor.SetConfig(thor.Config{EpochLength: cfg.L})
+	if w, ok := worlds[cfg]; ok {
+		return w
+	}
+	fc := thor.NoFork
+	fc.FINALITY = 0
+	w := &World{Cfg: cfg, Accounts: genesis.DevAccounts()[:cfg.N], FC: &fc}
+	bal, _ := new(big.Int).SetString("1000000000000000000000000000", 10)
+	var auth []genesis.Authority
+	var accounts []genesis.Account
+	for _, acc := range genesis.DevAccounts() {
+		accounts = append(accounts, genesis.Account{Address: acc.Address, Balance: (*genesis.HexOrDecimal256)(bal), Energy: (*genesis.HexOrDecimal256)(bal)})
+	}
+	for _, acc := range w.Accounts {
+		auth = append(auth, genesis.Authority{MasterAddress: acc.Address, EndorsorAddress: acc.Address, Identity: thor.BytesToBytes32([]byte("master"))})
+	}
+	mbp := uint64(cfg.N)
+	// launch far enough in the past that no generated block is a "future block" for time.Now()
+	w.Launch = uint64(time.Now().Unix()) - 20*3600
+	w.Launch -= w.Launch % 10
+	w.gene = &genesis.CustomGenesis{LaunchTime: w.Launch, GasLimit: thor.InitialGasLimit, ForkConfig: w.FC, Authority: auth,
+		Accounts: accounts, Params: genesis.Params{MaxBlockProposers: &mbp}}
+	worlds[cfg] = w
+	return w
 }
 
 // ---------------------------------------------------------------- a node over a recording engine
